@@ -36,6 +36,10 @@ def configs(tier):
                                         'reset': reset, 'fs': fs})
     for n in range(1, (5 if q else 7) + 1):
         out.append({'fn': 'limit_signal', 'n': n})
+    # tables whose index labels repeat (the output of flatten_dfs / pd.concat)
+    for centre in ('peak', 'trough'):
+        out.append({'fn': 'limit_df', 'rows': 3, 'centre': centre, 'start': 'real', 'stop': 'real', 'reset': True, 'fs': 1,
+                    'index': 'dup'})
     for rows in range(1, 4):
         for centre in ('peak', 'trough'):
             out.append({'fn': 'split', 'rows': rows, 'centre': centre})
@@ -104,6 +108,9 @@ def run(ctx, cfg):
             ctx.assume(stop >= (start if start is not None else 0))
             ctx.assume(stop * fs <= 9)
         df = pd.DataFrame({c: list(v) for c, v in data.items()})
+        if cfg.get('index') == 'dup':
+            parts = [pd.DataFrame({c: [v[i]] for c, v in data.items()}) for i in range(rows)]
+            df = pd.concat(parts, axis=0)            # index labels 0, 0, 0
         kw = {}
         if start is not None:
             kw['start'] = start
@@ -145,9 +152,8 @@ def run(ctx, cfg):
         n = cfg['n']
         t = [ctx.real('t%d' % i) for i in range(n)]
         x = [ctx.real('x%d' % i) for i in range(n)]
-        ctx.assume(t[0] >= 0)
         for i in range(1, n):
-            ctx.assume(t[i] > t[i - 1])
+            ctx.assume(t[i] > t[i - 1])          # times may be negative (e.g. relative to an event)
         start, stop = ctx.real('start'), ctx.real('stop')
         ctx.assume(start >= 0)
         ctx.assume(stop >= start)
